@@ -545,11 +545,11 @@ fn write_olde_ecl(
     match format.timeline_array_kind() {
         | TimelineArrayKind::Pofv { .. }
         | TimelineArrayKind::Pcb { .. } => {
-            w.write_u16(ecl.subs.len() as _)?;
-            w.write_u16(ecl.timelines.len() as _)?;
+            w.write_u16(llir::fit_field(emitter, "number of subs", ecl.subs.len())?)?;
+            w.write_u16(llir::fit_field(emitter, "number of timelines", ecl.timelines.len())?)?;
         },
         | TimelineArrayKind::Eosd { .. } => {
-            w.write_u16(ecl.subs.len() as _)?;
+            w.write_u16(llir::fit_field(emitter, "number of subs", ecl.subs.len())?)?;
             w.write_u16(0)?;
         },
     };
@@ -1135,10 +1135,10 @@ impl InstrFormat for OldeEclHooks {
         }
     }
 
-    fn write_instr(&self, f: &mut BinWriter, _: &dyn Emitter, instr: &RawInstr) -> WriteResult {
+    fn write_instr(&self, f: &mut BinWriter, emitter: &dyn Emitter, instr: &RawInstr) -> WriteResult {
         f.write_i32(instr.time)?;
         f.write_u16(instr.opcode)?;
-        f.write_i16(self.instr_size(instr) as _)?;
+        f.write_i16(llir::fit_field(emitter, "instruction size", self.instr_size(instr))?)?;
 
         f.write_u8(0)?;
         f.write_u8(instr.difficulty)?;
@@ -1205,11 +1205,11 @@ impl InstrFormat for TimelineFormat06 {
         Ok(ReadInstr::Instr(instr))
     }
 
-    fn write_instr(&self, f: &mut BinWriter, _: &dyn Emitter, instr: &RawInstr) -> WriteResult {
-        f.write_i16(instr.time as _)?;
+    fn write_instr(&self, f: &mut BinWriter, emitter: &dyn Emitter, instr: &RawInstr) -> WriteResult {
+        f.write_i16(llir::fit_field(emitter, "time label", instr.time)?)?;
         f.write_i16(instr.extra_arg.unwrap_or(0) as _)?;
         f.write_u16(instr.opcode)?;
-        f.write_u16(self.instr_size(instr) as _)?;
+        f.write_u16(llir::fit_field(emitter, "instruction size", self.instr_size(instr))?)?;
         f.write_all(&instr.args_blob)?;
         Ok(())
     }
@@ -1246,10 +1246,10 @@ impl InstrFormat for TimelineFormat08 {
         Ok(ReadInstr::Instr(instr))
     }
 
-    fn write_instr(&self, f: &mut BinWriter, _: &dyn Emitter, instr: &RawInstr) -> WriteResult {
+    fn write_instr(&self, f: &mut BinWriter, emitter: &dyn Emitter, instr: &RawInstr) -> WriteResult {
         f.write_i32(instr.time as _)?;
         f.write_u16(instr.opcode)?;
-        f.write_u8(self.instr_size(instr) as _)?;
+        f.write_u8(llir::fit_field(emitter, "instruction size", self.instr_size(instr))?)?;
         f.write_u8(instr.difficulty as _)?;
         f.write_all(&instr.args_blob)?;
         Ok(())
